@@ -235,6 +235,17 @@ def reachability(ctx, with_parent):
                         names.add(pth[:-4])
             except Exception:
                 pass
+        # decorated spellings of the names that must never resolve to a
+        # host library: the loader strips, lower-level code may not
+        for base in ("io", "os", "package", "python", "_G", "debug",
+                     "_sandbox_phase1", "string", "coroutine"):
+            for v in (" " + base, base + " ", base + "\n", "\t" + base,
+                      " " + base + " ", base.upper(), base.capitalize(),
+                      base + ".lua", "./" + base, base + "/", ":" + base,
+                      base + ":", "Module:" + base, "module:" + base,
+                      base + "\0", "\0" + base, "/" + base, base + "//",
+                      "." + base, base + "."):
+                names.add(v)
         req = envt["require"]
         pc = envt["pcall"]
         nreq = 0
@@ -305,6 +316,9 @@ CANARY = "CANARY-7f3a9c-SECRET"
 
 ATTACKS = {
     "require-io-write": 'local io = require("io"); local f = io.open("pwned.txt", "w"); f:write("x"); f:close(); return "wrote"',
+    "require-padded-io-write": 'local io = require(" io"); local f = io.open("pwned4.txt", "w"); f:write("x"); f:close(); return "wrote"',
+    "require-newline-os-getenv": 'return tostring(require("os\\n").getenv("VERIF_CANARY"))',
+    "cached-mod-upper-io": 'local m = _cached_mod("IO") or _cached_mod("Io") or _cached_mod("io "); return tostring(m and m.open)',
     "require-io-read": 'local io = require("io"); local f = io.open("canary.txt"); return f:read("*a")',
     "cached-mod-os-execute": 'return tostring(_cached_mod("os").execute("touch pwned2.txt"))',
     "require-os-getenv": 'return tostring(require("os").getenv("VERIF_CANARY"))',
@@ -496,6 +510,7 @@ def is_capability_text(o):
 PROBE_RETURNS = {
     # attack name -> substring that shows a host capability was obtained
     "require-G": "function",
+    "cached-mod-upper-io": "function",
     "require-package-loadlib": "function",
     "require-python": "function",
     "python-global": "function",
@@ -618,7 +633,9 @@ def run(run):
         "called with 12 benign argument vectors, require(n) / _cached_mod(n) "
         "/ _new_loader(n) "
         "for every name in the host package.loaded / preload, every built-in "
-        ".lua file stem and a list of well-known names, and for every Python "
+        ".lua file stem, a list of well-known names and 20 decorated "
+        "spellings (blanks, case, path and prefix decorations) of each host "
+        "library name, and for every Python "
         "object every attribute that passes the runtime's attribute filter "
         "plus container items; identity de-duplicated. Oracle: no reached "
         "value is (rawequal) a host io/os-process/package/debug function or "
